@@ -45,6 +45,8 @@ pub enum T1 {
     TailSelf,
     /// `__name__`: a builtin applied to the flowing value
     BCall(String),
+    /// `^x`: the callable variable `x` takes the frame over with the flowing value as its argument
+    TailNamed(String),
 }
 
 #[derive(Clone, Debug, PartialEq)]
@@ -88,6 +90,8 @@ pub struct Gen<'a> {
     pub body_depth: u32,
     /// generate recursive count-down functions (`^`) and builtin calls (Compile4)
     pub rec: bool,
+    /// inside tuple fields (no tail call there: not a tail position, a compile error since 9828b30)
+    pub in_field: u32,
 }
 
 impl<'a> Gen<'a> {
@@ -211,12 +215,14 @@ impl<'a> Gen<'a> {
                 let name = if self.r.chance(1, 3) { Some(["A", "B", "P"][self.r.usize(3)].to_string()) } else { None };
                 let mut fields = vec![];
                 let mut ftys = vec![];
+                self.in_field += 1;
                 for _ in 0..k {
                     // every field chain starts from the flowing value
                     let (c, t) = self.chain(flow, depth - 1);
                     fields.push(c);
                     ftys.push(t);
                 }
+                self.in_field -= 1;
                 (T1::Tup(name.clone(), fields), Ty::Tup(name, ftys))
             }
         }
@@ -369,6 +375,13 @@ impl<'a> Gen<'a> {
             out.push(if before.is_static_nil() { T1::Call(g) } else { T1::CallNil(g) });
             return (out, Ty::Any);
         }
+        let ifns: Vec<String> = self.env.iter().filter(|(_, t)| *t == Ty::Fn(Box::new(Ty::Int))).map(|(n, _)| n.clone()).collect();
+        if self.rec && self.body_depth > 0 && self.in_field == 0 && !ifns.is_empty() && self.r.chance(1, 3) {
+            // `<integer> ^g` inside a function body: the frame is handed to `g` (Compile5)
+            let g = ifns[self.r.usize(ifns.len())].clone();
+            let x = self.int_term(flow);
+            return (vec![x, T1::TailNamed(g)], Ty::Any);
+        }
         if self.rec && self.r.chance(1, 5) {
             // `[x, y] __integer_op__` with integer terms x, y, possibly continued
             let x = self.int_term(flow);
@@ -485,7 +498,7 @@ fn free_seq(s: &[Vec<T1>], outer: &[String], out: &mut Vec<String>) {
 fn free_term(t: &T1, outer: &[String], out: &mut Vec<String>) {
     match t {
         T1::TailSelf | T1::BCall(_) => {}
-        T1::Var(x) | T1::Call(x) | T1::CallNil(x) => {
+        T1::Var(x) | T1::Call(x) | T1::CallNil(x) | T1::TailNamed(x) => {
             if outer.contains(x) && !out.contains(x) {
                 out.push(x.clone());
             }
@@ -562,6 +575,7 @@ fn src_term(t: &T1) -> String {
         T1::FnLit(p, bs, _) => format!("#{} {{ {} }}", src_ty(p), src_branches(bs)),
         T1::Call(x) | T1::CallNil(x) => x.clone(),
         T1::TailSelf => "^".into(),
+        T1::TailNamed(x) => format!("^{x}"),
         T1::BCall(n) => format!("__{n}__"),
         T1::Block(bs) => {
             let parts: Vec<String> = bs
@@ -702,6 +716,7 @@ fn sx_term(t: &T1, ids: &mut Ids, cx: &mut Sx) -> Option<String> {
         T1::Var(x) => format!("(v {x})"),
         T1::Call(x) => format!("(call {x})"),
         T1::TailSelf => "(tail)".into(),
+        T1::TailNamed(x) => format!("(tailn {x})"),
         T1::BCall(n) => {
             let b = ids.next_builtin()?;
             cx.checks.push(Check::Builtin(b, n.clone()));
@@ -788,6 +803,7 @@ pub fn show(i: &Instruction) -> String {
         Instruction::Function(f) => format!("function{f}"),
         Instruction::Call => "call".into(),
         Instruction::TailCall(true) => "tailself".into(),
+        Instruction::TailCall(false) => "tailnamed".into(),
         Instruction::Builtin(b) => format!("builtin{b}"),
         other => format!("<{other:?}>"),
     }
